@@ -550,7 +550,9 @@ func checkReconcilePrune(c *Ctx, res *report.Result, rule string) {
 	}
 	n := 0
 	for _, g := range flow.AnonFuncsDeep(f) {
-		if len(flow.FindCalls(g, func(cc *ssa.CallCommon) bool { return flow.IsCallTo(cc, proxyPkg, "intraProxyManager", "closePeerShardLocked") })) == 0 {
+		if len(flow.FindCalls(g, func(cc *ssa.CallCommon) bool {
+			return flow.IsCallTo(cc, proxyPkg, "intraProxyManager", "closePeerShardLocked")
+		})) == 0 {
 			continue
 		}
 		for _, call := range flow.Calls(g) {
